@@ -260,7 +260,8 @@ PROPS["C09"] = {
                    shards={"quick": 4, "thorough": 16},
                    env={"quick": {"VK_C09_WORKLOADS": "400"}, "thorough": {"VK_C09_WORKLOADS": "20000"}}),
              plain("bigclear", "pcache", "TestC09BigClear", race=True, shards={"quick": 2, "thorough": 8}),
-             plain("multi", "pcache", "TestC09Multi", race=True, shards={"quick": 2, "thorough": 8})],
+             plain("multi", "pcache", "TestC09Multi", race=True, shards={"quick": 2, "thorough": 8}),
+             plain("steady", "pcache", "TestC09Steady", race=True, shards={"quick": 2, "thorough": 8})],
     "rule": "workloads are drawn as data by a rapid generator (Example seeds derived from VERIF_SEED and the shard): 2-4 "
             "goroutines x 4-12 calls of Has/Get/Put/Remove/Len/Size/Clear over keys 0..3, unique values of size 1-3, "
             "limit 3-5 (at most 5 entries, so known finding F2 cannot be exposed and the sequential specification is the "
@@ -285,7 +286,8 @@ PROPS["C09"] = {
             "reader saw both states (counted, not deduplicated: executions are not reproducible). "
             "Half of the workloads use keys in int / string / 88-byte struct and values in Val / *Cell / string, up to 5 keys. One third of the workloads run on a USER-SUPPLIED Store passed through WithStore (the Store documentation promises that the Cache serialises access to it): a lock-free recency list whose every method, Check included, writes plain counters; in raw executions only the cache's lock orders the calls, so the race detector reports any gap, stamped executions also count the calls inside the store. One fifth are single-goroutine workloads (limit 4-5, unit sizes: fill, Remove, Get, fresh Puts) that are stepped directly against the reference LRU, naming the first wrong call; they never count as non-trivial. Elements are made before and converted after the concurrent phase, so the harness adds no synchronisation. Put sizes include 0 (cache.Length of an empty value). "
             "leg multi (race build): 2, 4 or 8 caches live at once, each used by ONE goroutine running a C08 history against the sequential reference (every 50th group: 8 tiny caches with thousands of operations each): caches share nothing a caller can see, so every one must behave as it does alone. "
-            "About one workload in 6 uses the huge limits and sizes of C08 (concurrent, one-goroutine and the private caches of leg multi), with sizes constructed so that no schedule can overflow int64: a refused Put of a value that fits, or an eviction although everything fits, is a violation.",
+            "About one workload in 6 uses the huge limits and sizes of C08 (concurrent, one-goroutine and the private caches of leg multi), with sizes constructed so that no schedule can overflow int64: a refused Put of a value that fits, or an eviction although everything fits, is a violation. "
+            "leg steady (race build): a cache holding exactly K unit-size entries (limit K, K in 1..8) while 1-3 goroutines REPLACE the values of those keys (20000 Puts each; thorough 60000) and 1-4 goroutines observe. No call of the workload adds or removes a key, so at every possible linearization point the cache holds exactly those keys: whatever the schedule, every Has(k) and Get(k) must find k (Get: a value put for k), every Len and Size must be K, every Put must succeed, and the eviction callback must have reported exactly the replaced values, once each. This consequence of the property is checked call by call - millions of observations per run, so a window of a few instructions in which a call sees a half-updated cache is found by repetition. Non-trivial: every workload.",
     "assumptions": COMMON_ASSUME + [
         "the Go scheduler is not owned by the harness: interleavings are sampled, not enumerated; a defect that needs one specific preemption inside a few instructions can be missed",
         "the Go race detector reports only races that occur in an execution",
